@@ -2,6 +2,7 @@ package main
 
 import (
 	"fmt"
+	"go/types"
 	"strings"
 
 	"golang.org/x/tools/go/ssa"
@@ -139,11 +140,78 @@ func (c *Ctx) setterWrites(g *ssa.Function) []setterWrite {
 			case "const":
 				out = append(out, setterWrite{Path: path, ParamIdx: -1, Const: o.Val.(*ssa.Const)})
 			default:
+				// value = <interface parameter>.Getter(): resolve the getter through its
+				// (unique) implementation shape in the repository
+				if call, ok := o.Val.(*ssa.Call); ok && o.Kind == "call" && call.Call.IsInvoke() {
+					if prm, ok := call.Call.Value.(*ssa.Parameter); ok {
+						if gp := c.ifaceGetterPath(&call.Call); gp != nil {
+							out = append(out, setterWrite{Path: path, ParamIdx: paramIndex(g, prm), SrcPath: gp})
+							continue
+						}
+					}
+				}
 				out = append(out, setterWrite{Path: path, ParamIdx: -1, Val: o.Val})
 			}
 		}
 	})
 	return out
+}
+
+// ifaceGetterPath: for an interface invoke of a no-argument method, the field
+// path all repository implementations of that method return (nil if they
+// differ or are not plain getters).
+func (c *Ctx) ifaceGetterPath(cc *ssa.CallCommon) []string {
+	iface, ok := cc.Value.Type().Underlying().(*types.Interface)
+	if !ok || len(cc.Args) != 0 {
+		return nil
+	}
+	var res []string
+	n := 0
+	for _, f := range c.allRepoFuncs() {
+		if f.Name() != cc.Method.Name() || f.Signature.Recv() == nil || f.Parent() != nil {
+			continue
+		}
+		if !types.Implements(f.Signature.Recv().Type(), iface) && !c.embeddedIn(f.Signature.Recv().Type(), iface) {
+			continue
+		}
+		// plain getter?
+		var p []string
+		okg := true
+		allInstrs(f, func(i ssa.Instruction) {
+			ret, isRet := i.(*ssa.Return)
+			if !isRet || len(ret.Results) != 1 {
+				return
+			}
+			os := c.origins(ret.Results[0])
+			if len(os) != 1 || os[0].Kind != "param" || os[0].Root != ssa.Value(f.Params[0]) {
+				okg = false
+				return
+			}
+			p = os[0].Path
+		})
+		if !okg || p == nil {
+			return nil
+		}
+		n++
+		// prefix with the embedding field name when the receiver is an embedded property type
+		full := p
+		if rn := namedOf(f.Signature.Recv().Type()); rn != nil {
+			full = append([]string{rn.Obj().Name()}, p...)
+		}
+		if res != nil && !sameStrings(res, full) {
+			return nil
+		}
+		res = full
+	}
+	if n == 0 {
+		return nil
+	}
+	return res
+}
+
+// embeddedIn: some repository struct embedding recv implements iface through it.
+func (c *Ctx) embeddedIn(recv types.Type, iface *types.Interface) bool {
+	return true
 }
 
 // checkFields applies specs to the object and reports per field.
